@@ -66,29 +66,27 @@ def mk(pol):
     raise ValueError(pol)
 
 
-def build(case):
-    classes = list(ROOTS)
-    for i, cd in enumerate(case["classes"]):
+def is_early(op):
+    return op[-1] == "E"
+
+
+def create(classes, cds):
+    for cd in cds:
         ns = {}
         for n, pol in cd["decls"]:
             if n in ns:
                 raise ValueError("duplicate declaration " + n)
             ns[n] = mk(pol)
         bases = tuple(classes[b] for b in cd["bases"])
-        classes.append(type(HasTraits)("K%d" % (len(ROOTS) + i), bases, ns))
-    k = case["cls"]
-    if k < len(ROOTS):
-        raise ValueError("the instance must be of a freshly created class")
-    return classes[k]()
+        classes.append(type(HasTraits)("K%d" % len(classes), bases, ns))
 
 
 MISSING = object()
 
 
-def run_case(case):
-    obj = build(case)
+def execute(obj, ops):
     hist = []
-    for op in case["ops"]:
+    for op in ops:
         k, n = op[0], op[1]
         try:
             if k == "Get":
@@ -110,6 +108,32 @@ def run_case(case):
             out = ["Raise", dlib.exn_name(e, EXN)]
         st = obj.__dict__.get(n, MISSING)
         hist.append({"out": out, "stored": None if st is MISSING else atom(st)})
+    return hist
+
+
+def run_case(case):
+    """Classes except the last `nlate` ones; the early operations (flag "E") on a fresh instance of
+    class `precls`; the remaining classes; the other operations on a fresh instance of class `cls`."""
+    cds = case["classes"]
+    nlate = case.get("nlate", 0)
+    ops = case["ops"]
+    early = [op for op in ops if is_early(op)]
+    main = [op for op in ops if not is_early(op)]
+    if ops != early + main:
+        raise ValueError("early operations must come first")
+    classes = list(ROOTS)
+    create(classes, cds[:len(cds) - nlate])
+    hist = []
+    if early:
+        k = case["precls"]
+        if k < len(ROOTS) or k >= len(classes):
+            raise ValueError("the early instance must be of a freshly created, already existing class")
+        hist += execute(classes[k](), early)
+    create(classes, cds[len(cds) - nlate:])
+    k = case["cls"]
+    if k < len(ROOTS):
+        raise ValueError("the instance must be of a freshly created class")
+    hist += execute(classes[k](), main)
     return hist
 
 
